@@ -325,6 +325,37 @@ fn f_c18_1_transient_double_unregister() {
     assert!(r.is_ok(), "disable failed: {:?}", r.err());
 }
 
+// F-C18-3: a child that disabled itself is unregistered a second time when it is then removed
+// or replaced (found by the E3 exploration of the extracted TransientSource automaton)
+#[test]
+fn f_c18_3_remove_after_disable() {
+    let mut el: EventLoop<()> = EventLoop::try_new().unwrap();
+    let h = el.handle();
+    let (mut tx, rx) = UnixStream::pair().unwrap();
+    let d = calloop::Dispatcher::new(W { inner: Generic::new(rx, Interest::READ, Mode::Level).into() }, |_, _, _| ());
+    let tok = h.register_dispatcher(d.clone()).unwrap();
+    tx.write_all(b"x").unwrap();
+    el.dispatch(Duration::ZERO, &mut ()).unwrap(); // child returns Disable -> reregister -> child unregistered
+    d.as_source_mut().inner.remove();
+    let r = h.update(&tok); // documented protocol: re-register after remove()
+    assert!(r.is_ok(), "update() after remove() of a disabled child failed: {:?}", r.err());
+}
+
+#[test]
+fn f_c18_3_replace_after_disable() {
+    let mut el: EventLoop<()> = EventLoop::try_new().unwrap();
+    let h = el.handle();
+    let (mut tx, rx) = UnixStream::pair().unwrap();
+    let (_tx2, rx2) = UnixStream::pair().unwrap();
+    let d = calloop::Dispatcher::new(W { inner: Generic::new(rx, Interest::READ, Mode::Level).into() }, |_, _, _| ());
+    let tok = h.register_dispatcher(d.clone()).unwrap();
+    tx.write_all(b"x").unwrap();
+    el.dispatch(Duration::ZERO, &mut ()).unwrap();
+    d.as_source_mut().inner.replace(Generic::new(rx2, Interest::READ, Mode::Level));
+    let r = h.update(&tok);
+    assert!(r.is_ok(), "update() after replace() of a disabled child failed: {:?}", r.err());
+}
+
 // ---------------------------------------------------------------- F-C19-1
 #[test]
 fn f_c19_1_set_signals_window() {
